@@ -772,6 +772,8 @@ class _M:
             return gen()
         if isinstance(v, _CONTAINERS) or (hasattr(v, "__next__") and not isinstance(v, (_Opaque, _Ref, _FnDef, _Bound, _Cls))):
             return iter(v)
+        if v is None or isinstance(v, (bool, int, float)):
+            raise _Raised("TypeError", f"'{type(v).__name__}' object is not iterable")  # a definite value that is not iterable: the evaluated program fails here
         raise _Cannot(f"iteration over a {type(v).__name__}")
 
     def b_next(self, it, *default):
@@ -2242,6 +2244,145 @@ def _skipper_rule(chk, io_, pr):
                key=f"{_I}:{sk.name}:position:{label}")
 
 
+# ---- O3.13 the file source's contract on values (seed m17) --------------------------------------------------------------------------------------------------------------------
+# `_FakeFile` is the stand-in of the value runs for the file source the slice reader opens; what it assumes about the real class ("readlines(n) hands out the next min(n, remaining)
+# lines") is decided here: the class is instantiated and opened by the evaluator over a byte file of the rule (open() / mmap.mmap() are stand-ins), then read to its end.
+
+_SRC_CHUNKS = (1, 5, 12, 50)
+
+
+class _LineFile:
+    """stand-in for what open(path, mode) / mmap.mmap(fileno, ..) return over the rule's data: byte (or, in a text mode, str) content with a position; readline / readlines / read /
+    seek / tell / iteration."""
+
+    def __init__(self, data):
+        self.data, self.pos, self.closed = data, 0, False
+        self.nl = "\n" if isinstance(data, str) else b"\n"
+        self.obj = _Obj(None, None, {"seek": _stub(self.seek), "tell": _stub(lambda: self.pos), "readline": _stub(self.readline), "readlines": _stub(self.readlines), "read": _stub(self.read),
+                                     "close": _stub(self.close), "fileno": _stub(lambda: 3), "madvise": _stub(lambda *a, **k: None), "flush": _stub(lambda: None),
+                                     "size": _stub(lambda: len(self.data)), "__iter__": _stub(lambda: self.readlines()), "__len__": _stub(lambda: len(self.data))}, "opened data file")
+        self.obj.native["__enter__"] = _stub(lambda: self.obj)
+        self.obj.native["__exit__"] = _stub(lambda *a: self.close() or False)
+
+    def close(self):
+        self.closed = True
+
+    def seek(self, off, whence=0):
+        if not isinstance(off, int) or isinstance(off, bool) or whence != 0 or off < 0:
+            raise _Raised("ValueError", f"seek({off!r}, {whence!r})")
+        self.pos = min(off, len(self.data))
+        return self.pos
+
+    def readline(self, *a):
+        if a and a[0] not in (-1, None):
+            raise _Cannot("readline(<size>) on the stand-in data file")
+        end = self.data.find(self.nl, self.pos)
+        end = len(self.data) if end < 0 else end + 1
+        out, self.pos = self.data[self.pos:end], end
+        return out
+
+    def readlines(self, *a):
+        if a and a[0] not in (-1, None):
+            raise _Cannot("readlines(<size hint>) on the stand-in data file")
+        out = []
+        while self.pos < len(self.data):
+            out.append(self.readline())
+        return out
+
+    def read(self, *a):
+        if a and a[0] not in (-1, None):
+            raise _Cannot("read(<size>) on the stand-in data file")
+        out, self.pos = self.data[self.pos:], len(self.data)
+        return out
+
+
+def _file_source_rule(chk, io_, pr):
+    chk.rule("O3.13", "file source contract, on values (what the stand-in file source of the value runs assumes): the class the parameter source hands to its slice reader, opened over a "
+             "data file of the rule and read with readlines(n) until nothing comes back, hands out every line of the file exactly once, in order and byte for byte, min(n, remaining) "
+             "lines per call and [] at the end - for files that end with a newline and for files whose last document is not terminated by one", 3,
+             "a corpus file whose last line has no trailing newline (hand-made / joined corpora): the last document (counted by corpus preparation, assigned to the last client group) is "
+             "never ingested; with action lines its action line is sent without a document")
+    # role: the file source = a class of the io module (it offers open() and readlines(n)) that the parameter source's module hands on as a value (`Slice(io.MmapSource, ..)`)
+    io_path = io_.modname
+    roles: dict = {}
+    for f in pr.functions():
+        for c in source.calls_in(f):
+            for a in list(c.args) + [k.value for k in c.keywords]:
+                d = dotted(a)
+                if d is None or "." not in d:
+                    continue
+                head, _, rest = d.partition(".")
+                cls = io_.index().get(rest)
+                if pr.imports.get(head) == io_path and isinstance(cls, ast.ClassDef):
+                    ms = io_.methods(cls)
+                    if "open" in ms and "readlines" in ms and len(_own_params(ms["readlines"])) == 1:
+                        roles.setdefault(cls.name, (cls, c))
+    if not roles:
+        raise AnchorMissing(f"{_P}: no class of {_I} with open() and readlines(n) is handed to a reader of the bulk parameter source (Slice(io.MmapSource, ..))")
+    lines = list(_SKIP_LINES)
+    worlds = [("the file ends with a newline", lines), ("the last document is not terminated by a newline", lines[:-1] + [lines[-1].rstrip(b"\n")]),
+              ("a single document without a newline", [lines[3].rstrip(b"\n")])]
+    for cname, (cls, call) in sorted(roles.items()):
+        init = io_.methods(cls).get("__init__")
+        npar = len(_own_params(init)) if init is not None else 0
+        for label, content in worlds:
+            wrong, cannot = [], None
+            for chunk in _SRC_CHUNKS:
+                opened: list = []
+
+                def open_(path=None, mode="r", *a, _o=opened, **k):
+                    mode = k.get("mode", mode)
+                    if not isinstance(mode, str) or any(ch in mode for ch in "wax+"):
+                        raise _Cannot(f"open(.., {mode!r}) of the data file")
+                    data = b"".join(content)
+                    lf = _LineFile(data if "b" in mode else data.decode("utf-8"))
+                    _o.append(lf)
+                    return lf.obj
+
+                def mmap_(*a, _o=opened, **k):
+                    lf = _LineFile(b"".join(content))
+                    _o.append(lf)
+                    return lf.obj
+
+                m = _M(io_, None, None, {"mmap.mmap": _stub(mmap_), "mmap.ACCESS_READ": 1, "mmap.MADV_SEQUENTIAL": 2, "mmap.PROT_READ": 1, "mmap.MAP_SHARED": 1, "mmap.MAP_PRIVATE": 2,
+                                         "os.path.getsize": _stub(lambda p_: len(b"".join(content))), "os.open": _stub(lambda *a, **k: 3), "os.close": _stub(lambda *a: None),
+                                         "os.O_RDONLY": 0}, budget=60000)
+                m.special["open"] = _stub(open_)
+                try:
+                    if npar < 1:
+                        raise _Cannot(f"{cname}() takes no file name")
+                    src = m.apply(_Cls(cls), [_SAMPLE, "rt"][:max(1, min(npar, 2))], {})
+                    m.apply(m.getattr(src, "open"), [], {})
+                    if not opened:
+                        raise _Cannot(f"{cname}.open() does not open the data file through open() / mmap.mmap()")
+                    got, calls = [], []
+                    for _ in range(len(content) + 3):
+                        r = m.apply(m.getattr(src, "readlines"), [chunk], {})
+                        if not isinstance(r, (list, tuple)) or not all(isinstance(x, (bytes, str)) for x in r):
+                            raise _Cannot(f"readlines({chunk}) hands out a {type(r).__name__}")
+                        calls.append(len(r))
+                        got += [x.encode("utf-8") if isinstance(x, str) else x for x in r]
+                        if not r:
+                            break
+                    want_calls = [min(chunk, len(content) - i) for i in range(0, len(content), chunk)] + [0]
+                    if got != content:
+                        lost = [i for i, x in enumerate(content) if x not in got]
+                        wrong.append(f"readlines({chunk}) until nothing comes back hands out {len(got)} of the {len(content)} lines" + (f" (line {lost[0]} = {content[lost[0]]!r} is never handed out)" if lost else
+                                                                                                                                    " (not the file's lines in order)"))
+                    elif calls != want_calls:
+                        wrong.append(f"readlines({chunk}) hands out {calls} lines per call, min(n, remaining) is {want_calls}")
+                except _Raised as x:
+                    wrong.append(f"readlines({chunk}) on the opened source raises {x}")
+                except _Cannot as x:
+                    cannot = f"readlines({chunk}): {x}"
+                    break
+            if cannot is not None and not wrong:
+                chk.unknown("O3.13", f"io.{cname} cannot be evaluated over the rule's data file ({label}): {cannot}", cls)
+                continue
+            chk.ob("O3.13", f"io.{cname} ({label}): every line is handed out exactly once, min(n, remaining) per call", not wrong, io_.methods(cls)["readlines"],
+                   "; ".join(wrong[:2]) if wrong else f"{len(content)} line(s) read in chunks of {', '.join(map(str, _SRC_CHUNKS))}", key=f"{_I}:{cname}.readlines:contract:{label}")
+
+
 # ---- O3.12 one parameter source per task and worker (seed m13) -------------------------------------------------------------------------------------------------------------
 # `_Sim` drives ONE parameter source per worker and task through the driver's contract. This rule decides that the load generator honours that contract: the loop that turns a
 # worker's client allocations into schedules is run by the evaluator on model allocations; the parameter sources are stand-ins that record who asked for them and who registered.
@@ -2452,6 +2593,11 @@ class _FakeFile:
     def readlines(self, n):
         if not self.open_ or not isinstance(n, int) or isinstance(n, bool):
             raise _Raised("ValueError", f"readlines({n!r}) on a {'open' if self.open_ else 'closed'} source")
+        if self.sim.fault is not None and self.sim.fault[0] == self.path:
+            self.sim.reads_of_faulty += 1
+            if self.sim.reads_of_faulty == self.sim.fault[1]:
+                self.sim.faults_raised += 1
+                raise _Raised("OSError", f"[Errno 5] Input/output error: '{self.path}' (the rule's fault in read {self.sim.fault[1]} of this file)")
         out = self.lines[self.pos:self.pos + max(n, 0)]
         self.handed.append((self.pos, len(out)))
         self.pos += len(out)
@@ -2471,6 +2617,7 @@ class _Sim:
     def __init__(self, pr, source_cls, files):
         self.pr, self.source_cls, self.files = pr, source_cls, files
         self.lines, self.meta, self.fakes = {}, {}, {}
+        self.fault, self.reads_of_faulty, self.faults_raised = None, 0, 0  # fault: (path, k) - the k-th read of that file (counted per run) fails with OSError
         self.docsets = []
         for cname, sets in files.items():
             for f, n, has_meta in sets:
@@ -2844,7 +2991,37 @@ def _pipeline_verdicts(pr, source_cls):
         check_streams(label, simc, res, 2, ("tile", "contig"))
         V_.rows["idtile"] = V_.rows.get("idtile", []) + [V_.rows["tile"].pop()]
         V_.rows["idcontig"] = V_.rows.get("idcontig", []) + [V_.rows["contig"].pop()]
-    V_.steps = sim.steps + simc.steps + simf.steps + sime.steps
+    # a read of the file source that FAILS (OSError: EIO, ESTALE, ..) in the middle of a slice is not the end of the slice: the source fails, or (after a retry) nothing is lost
+    simx = _Sim(pr, source_cls, _FILES)
+    for groups, clients, fpath, k in (([[0, 1], [2, 3]], 4, "A1", 1), ([[0, 1], [2, 3]], 4, "A2", 2), ([[0, 1, 2, 3]], 4, "A1", 3), ([[0], [1], [2]], 3, "B1", 1), ([[0, 1, 2]], 3, "C1", 1)):
+        label = f"read {k} of file {fpath} fails with OSError, {clients} clients on workers {groups}, bulk size 3, batch size 6"
+        simx.fault, simx.reads_of_faulty, simx.faults_raised = (simx.meta[fpath][0], k), 0, 0
+        try:
+            res = simx.run(groups, clients, base)
+        except _Cannot as x:
+            V_.add("fault", label, None, str(x))
+            continue
+        except _Raised as x:
+            # the task fails (whatever the exception is): accepted - provided it was the rule's fault that ended it
+            V_.add("fault", label, True if simx.faults_raised else None, f"the parameter source raises {x}" if simx.faults_raised else f"raises {x} before the read that was to fail")
+            continue
+        if not simx.faults_raised:
+            V_.add("fault", label, None, "the read that was to fail is never issued")
+            continue
+        try:
+            seen: dict = {}
+            for g, stream in res:
+                for b in stream:
+                    for d in _docs_of(_decode(b, 3)[1] or []):
+                        seen[(d.get("f"), d.get("n"))] = seen.get((d.get("f"), d.get("n")), 0) + 1
+            want = {(f, i) for f, (p_, n, m_) in simx.meta.items() for i in range(n)}
+            missing = sorted(want - set(seen))
+            V_.add("fault", label, not missing, f"every source ends with a regular StopIteration (the task completes) although {len(missing)} of {len(want)} documents were never handed out "
+                                                f"({[f'{f}#{n}' for f, n in missing][:5]}): the failed read is taken for the end of the slice" if missing else "all documents handed out after the failed read")
+        except _Cannot as x:
+            V_.add("fault", label, None, str(x))
+    simx.fault = None
+    V_.steps = sim.steps + simc.steps + simf.steps + sime.steps + simx.steps
     return V_
 
 
@@ -2865,7 +3042,8 @@ _SIM_ROWS = [("O3.1", "tile", "on values: the slices of all workers tile every f
              ("O3.8", "loop", "on values: a looped source starts over instead of stopping"),
              ("O3.8", "progress", "on values: percent_completed is i / B after the i-th of a source's B bulks"),
              ("O3.8", "progress0", "on values: the progress of a worker without documents is defined"),
-             ("O3.9", "emptytile", "on values: clients without documents do not disturb the others - every document is still ingested exactly once")]
+             ("O3.9", "emptytile", "on values: clients without documents do not disturb the others - every document is still ingested exactly once"),
+             ("O3.14", "fault", "on values: a failed read is not the end of a slice - the source raises or still hands out every document")]
 
 
 def run(chk):
@@ -2888,11 +3066,13 @@ def run(chk):
         "preceded) by the removal of that file's offset table before the table is prepared, because O3.7 trusts a table on its mtime alone - 'no table of this file exists' is a fact "
         "established along control-flow edges (a statement that deletes the table's file name, evaluated for a sample path; the branch of an existence test that is only taken "
         "without the table, the test being evaluated in worlds with and without the table file; an own helper - method or module-level function - that establishes it on all its "
-        "normal paths); offset-table protocol (O3.7)."
+        "normal paths); offset-table protocol (O3.7). O3.13: the file source class handed to the slice reader is opened by the evaluator over a byte file of the rule (open / mmap.mmap "
+        "are stand-ins) and read to its end in chunks of 1, 5, 12 and 50 lines - every line exactly once, also a last line without a newline. O3.14: the value runs are repeated with a "
+        "file source whose k-th read raises OSError: the parameter source raises, or nothing is lost - it never ends with a regular StopIteration and documents missing."
     )
     chk.not_decided = "round(total/n * n) == total for all n (float), byte-exactness of tell() cookies for multi-byte text, mmap vs text-mode newline agreement, order of co-located clients."
-    chk.trusted += ["stand-in for io's file source: readlines(n) hands out the next min(n, remaining) lines, skip_lines(path, source, n) advances the source by n lines (the real ones are "
-                    "the subject of O3.7)", "the local evaluator of rules/C03.py interprets the subset of Python the bulk pipeline is written in faithfully"]
+    chk.trusted += ["stand-in for io's file source: readlines(n) hands out the next min(n, remaining) lines, skip_lines(path, source, n) advances the source by n lines (the real readlines is "
+                    "decided on values by O3.13, the real skipper by O3.11, the offset table by O3.7)", "the local evaluator of rules/C03.py interprets the subset of Python the bulk pipeline is written in faithfully"]
 
     # ---- the bulk pipeline on values (rows are reported under the rule whose clause they decide, see the end of run) --------------------------------------------------
     # role: the parameter source of bulk tasks is the class the module registers for the bulk operation type
@@ -3537,6 +3717,7 @@ def run(chk):
     shared("O3.10", _stale_table_rule, chk, ldr_, io_)
     shared("O3.11", _skipper_rule, chk, io_, pr)
     shared("O3.12", _source_per_task_rule, chk, drv_)
+    shared("O3.13", _file_source_rule, chk, io_, pr)
 
     # ---- O3.8 bulk counting and percentage cut-off --------------------------------------------------------------------------------------------------------------
     chk.rule("O3.8", "per file the bulk count is the ceiling division of the slice's documents by the bulk size; total_bulks == ceil(all_bulks * p / 100) exactly (also for fractional p); "
@@ -3679,6 +3860,13 @@ def run(chk):
 
     block("O3.8", o38)
 
+    # ---- O3.14 a read error is not the end of the data (seed m18) --------------------------------------------------------------------------------------------------------------
+    chk.rule("O3.14", "a read error is never taken for the end of a slice, on values: when a read of the opened file source raises OSError in the middle of a client group's slice, the "
+             "parameter source either fails (params() / partition() raise something that is not StopIteration: the task is aborted) or still hands out every document; it never ends "
+             "regularly (StopIteration = 'all bulks of this group sent') with documents of the corpus not handed out", 4,
+             "an I/O error (EIO, ESTALE, ..) while a group reads its slice: the rest of the slice is silently skipped, the readers of the following files continue and the task completes "
+             "normally with documents missing")
+
     # ---- the rows of the value runs, each under the rule whose clause it decides -------------------------------------------------------------------------------------------
     site = pr.index().get(reg[0] if len(reg) == 1 else "BulkIndexParamSource") or _P
     skipped = []
@@ -3810,7 +3998,29 @@ def _r3_module_level_invalidation(kind, body, rule=None):
 
 _R3_BULK_CLASS = ("class IndexDataReader:\n", "@dataclass(frozen=True)\nclass Bulk:\n    docs: int\n    body: bytes = b\"\"\n    tags: list = field(default_factory=list)\n\n\nclass IndexDataReader:\n")
 
+_S6_MM_LOOP = "            line = mm.readline()\n            if line == b\"\":\n                break\n            lines.append(line)\n"
+_S6_HANDLER = "            logging.getLogger(__name__).exception(\"Could not read [%s]\", self.data_file)\n"
+
 VARIANTS = [
+    # O3.13 (seed m17): the file source's contract on values
+    V("seed m17: the mmap reader stops at a line without a newline", "break", _I, "            if line == b\"\":\n", "            if not line.endswith(b\"\\n\"):\n", "O3.13"),
+    V("O3.13: end-of-data test on the last byte", "break", _I, "            if line == b\"\":\n", "            if line[-1:] != b\"\\n\":\n", "O3.13"),
+    V("O3.13: lines handed out without their newline", "break", _I, _S6_MM_LOOP, "            line = mm.readline()\n            if line == b\"\":\n                break\n            lines.append(line.rstrip())\n", "O3.13"),
+    V("O3.13: one line fewer than asked for", "break", _I, "        mm = self.mm\n        for _ in range(num_lines):\n", "        mm = self.mm\n        for _ in range(num_lines - 1):\n", "O3.13"),
+    V("O3.13: the empty result of the end of data is appended", "break", _I, _S6_MM_LOOP, "            line = mm.readline()\n            lines.append(line)\n            if line == b\"\":\n                break\n", "O3.13"),
+    V("O3.13: end-of-data test as truth value", "keep", _I, "            if line == b\"\":\n", "            if not line:\n", "O3.13"),
+    V("O3.13: while loop with a walrus, counted by the result", "keep", _I, "        for _ in range(num_lines):\n" + _S6_MM_LOOP,
+      "        while len(lines) < num_lines and (line := mm.readline()):\n            lines.append(line)\n", "O3.13"),
+    V("O3.13: end of data detected by the position in the mapped data", "keep", _I, _S6_MM_LOOP, "            if mm.tell() >= mm.size():\n                break\n            lines.append(mm.readline())\n", "O3.13"),
+    # O3.14 (seed m18): a read error is not the end of the data
+    V("seed m18: the OSError handler of the batch reader raises StopIteration", "break", _P, _S6_HANDLER, _S6_HANDLER + "            raise StopIteration() from None\n", "O3.14"),
+    V("O3.14: read errors end the batch loop like the end of the slice", "break", _P, "                except StopIteration:\n                    break\n                if docs_in_bulk == 0:",
+      "                except (StopIteration, OSError):\n                    break\n                if docs_in_bulk == 0:", "O3.14"),
+    V("O3.14: the slice reader swallows the read error and reports its end", "break", _P, "        lines = self.source.readlines(min(self.bulk_size, self.number_of_lines - self.current_line))\n",
+      "        try:\n            lines = self.source.readlines(min(self.bulk_size, self.number_of_lines - self.current_line))\n        except OSError:\n            lines = []\n", "O3.14"),
+    V("O3.14: the handler re-raises after logging", "keep", _P, _S6_HANDLER, _S6_HANDLER + "            raise\n", "O3.14"),
+    V("O3.14: the handler raises a data error", "keep", _P, _S6_HANDLER, _S6_HANDLER + "            raise exceptions.DataError(f\"Could not read [{self.data_file}]\") from None\n", "O3.14"),
+    V("O3.14: no handler at all (the OSError reaches the driver)", "keep", _P, "        except OSError:\n" + _S6_HANDLER, "        except OSError:\n            raise\n", "O3.14"),
     # O3.12 (seed m13): one parameter source per task and worker
     [V("seed m13: parameter sources cached per operation", "break", _D, "            if task not in params_per_task:", "            if task.operation not in params_per_task:", "O3.12"),
      V("seed m13: parameter sources cached per operation", "break", _D, "                params_per_task[task] = param_source", "                params_per_task[task.operation] = param_source", "O3.12"),
